@@ -11,6 +11,7 @@
 
 #include "ambient.h"
 #include "runner.h"
+#include "constmem.h"
 #include "statics.h"
 #include "vsched.h"
 #include "trap.h"
@@ -95,51 +96,64 @@ uint64_t dataHash(const Op &op) {
     return c.h ? c.h : 1;
 }
 
-// caller-owned input buffers shared by several operations
+// caller-owned input buffers shared by several operations.  They live in the shared const slab
+// (constmem.h), which is read-only during the sequential and the concurrent phase, so that a store to a
+// shared const input is trapped at the instruction that makes it — whatever the interleaving.
 struct SharedBuf {
-    std::vector<H3Index> cells;
-    std::vector<std::vector<LatLng>> loops;
-    std::vector<GeoLoop> holes;
-    GeoPolygon poly;
+    H3Index *cells = nullptr;
+    std::vector<LatLng *> loops;
+    GeoLoop *holes = nullptr;
+    GeoPolygon *poly = nullptr;
     SharedInput in;
     uint64_t hash = 0;
+    std::vector<std::unique_ptr<uint8_t[]>> own;  // fallback storage when no const slab is available
+    void *grab(size_t bytes) {
+        void *m = constSharedAlloc(bytes);
+        if (m) return m;
+        own.emplace_back(new uint8_t[bytes]());
+        return own.back().get();
+    }
     void build(const Op &op) {
         hash = dataHash(op);
-        cells = op.cells;
-        cells.push_back(0);  // never empty, so data() is valid
-        loops = op.loops;
-        memset(&poly, 0, sizeof poly);
-        if (!loops.empty()) {
-            poly.geoloop.numVerts = (int)loops[0].size();
-            poly.geoloop.verts = loops[0].empty() ? nullptr : loops[0].data();
-            for (size_t i = 1; i < loops.size(); i++) {
-                GeoLoop g;
-                g.numVerts = (int)loops[i].size();
-                g.verts = loops[i].empty() ? nullptr : loops[i].data();
-                holes.push_back(g);
-            }
-            poly.numHoles = (int)holes.size();
-            poly.holes = holes.empty() ? nullptr : holes.data();
-            in.poly = &poly;
+        cells = (H3Index *)grab((op.cells.size() + 1) * sizeof(H3Index));  // never empty
+        if (!op.cells.empty()) memcpy(cells, op.cells.data(), op.cells.size() * sizeof(H3Index));
+        for (auto &l : op.loops) {
+            LatLng *v = (LatLng *)grab((l.size() + 1) * sizeof(LatLng));
+            if (!l.empty()) memcpy(v, l.data(), l.size() * sizeof(LatLng));
+            loops.push_back(v);
         }
-        if (!op.cells.empty()) in.cells = cells.data();
+        if (!op.loops.empty()) {
+            poly = (GeoPolygon *)grab(sizeof(GeoPolygon));
+            memset(poly, 0, sizeof *poly);
+            poly->geoloop.numVerts = (int)op.loops[0].size();
+            poly->geoloop.verts = op.loops[0].empty() ? nullptr : loops[0];
+            size_t nh = op.loops.size() - 1;
+            if (nh) {
+                holes = (GeoLoop *)grab(nh * sizeof(GeoLoop));
+                for (size_t i = 0; i < nh; i++) {
+                    holes[i].numVerts = (int)op.loops[i + 1].size();
+                    holes[i].verts = op.loops[i + 1].empty() ? nullptr : loops[i + 1];
+                }
+            }
+            poly->numHoles = (int)nh;
+            poly->holes = nh ? holes : nullptr;
+            in.poly = poly;
+        }
+        if (!op.cells.empty()) in.cells = cells;
     }
     bool reported = false;
-    void restore(const Op &op) {  // same sizes: copy the pristine argument data back in place
-        if (!op.cells.empty()) memcpy(cells.data(), op.cells.data(), op.cells.size() * 8);
+    void restore(const Op &op) {  // same sizes: copy the pristine argument data back in place (slab unsealed)
+        if (!op.cells.empty()) memcpy(cells, op.cells.data(), op.cells.size() * 8);
         for (size_t i = 0; i < op.loops.size(); i++)
             if (!op.loops[i].empty())
-                memcpy(loops[i].data(), op.loops[i].data(), op.loops[i].size() * sizeof(LatLng));
+                memcpy(loops[i], op.loops[i].data(), op.loops[i].size() * sizeof(LatLng));
         reported = false;
     }
     bool intact(const Op &op) const {
-        if (!op.cells.empty() &&
-            memcmp(cells.data(), op.cells.data(), op.cells.size() * 8) != 0)
-            return false;
+        if (!op.cells.empty() && memcmp(cells, op.cells.data(), op.cells.size() * 8) != 0) return false;
         for (size_t i = 0; i < op.loops.size(); i++)
             if (!op.loops[i].empty() &&
-                memcmp(loops[i].data(), op.loops[i].data(),
-                       op.loops[i].size() * sizeof(LatLng)) != 0)
+                memcmp(loops[i], op.loops[i].data(), op.loops[i].size() * sizeof(LatLng)) != 0)
                 return false;
         return true;
     }
@@ -200,6 +214,10 @@ struct C18Exec {
     std::map<int, std::vector<std::unique_ptr<SharedBuf>>> shared;
     int64_t soloStepsTotal = 0;
     explicit C18Exec(const C18Case &c) : cs(c), T((int)c.progs.size()) {}
+    ~C18Exec() {
+        shared.clear();
+        constSharedReset();
+    }
     void prepare(C18Outcome &out);
     void concurrent(const SchedConfig &scIn, C18Outcome &out);
     JP caseWith(const std::vector<SwitchRec> &schedule) const {
@@ -211,6 +229,7 @@ struct C18Exec {
 };
 
 void C18Exec::prepare(C18Outcome &out) {
+    constSharedReset();
     slots.assign((size_t)T, std::vector<OpSlot>());
     for (int t = 0; t < T; t++) slots[t].resize(cs.progs[t].size());
 
@@ -232,6 +251,7 @@ void C18Exec::prepare(C18Outcome &out) {
             slots[t][i].shared = &found->in;
         }
 
+    constSharedSeal();  // shared const inputs are read-only from here on (except while being restored)
     trapTake();
     trapDisarm();
     staticsRestore();  // pristine library statics at the start of every run
@@ -266,6 +286,7 @@ void C18Exec::prepare(C18Outcome &out) {
             }
             ExecOpts eo;
             eo.shared = s.shared;
+            eo.sealInputs = true;
             ctx.begin(t, ++g_opIdCounter, fillSeedOf(cs.caseSeed, t, (int)i), op.fault);
             heapBind(&ctx);
             Ambient amb0 = ambientGet(true);
@@ -307,6 +328,18 @@ void C18Exec::prepare(C18Outcome &out) {
                 }
             }
             trapRearm();
+            if (s.expected.constChanged > 0 && out.violations.size() < 8) {
+                JP v = mkViolation(
+                    "I2-const-input-write", op, t, (int)i,
+                    "the call stored to one of its const inputs and changed it (" +
+                        std::to_string(s.expected.constChanged) + " value-changing store(s), first at byte offset " +
+                        std::to_string(s.expected.constFirstOffset) + " of the input area, scheduling point " +
+                        std::to_string(s.expected.constFirstStep) +
+                        ") while executing alone; a thread that reads the same input object concurrently races with it",
+                    s.expected.constFirstShared ? "shared-const-input" : "const-input");
+                v->set("case", caseWith({{0, 0}}));
+                out.violations.push_back(v);
+            }
             if (s.expected.status != CALL_RETURNED) {
                 s.dropped = true;
                 s.dropWhy = "does not return when executed alone on the simulated heap";
@@ -351,6 +384,7 @@ void C18Exec::concurrent(const SchedConfig &scIn, C18Outcome &out) {
             s.failedConc = 0;
             s.roundChanged = false;
         }
+    constSharedUnseal();
     for (int t = 0; t < T; t++)
         for (size_t i = 0; i < cs.progs[t].size(); i++) {
             const Op &op = cs.progs[t][i];
@@ -358,6 +392,7 @@ void C18Exec::concurrent(const SchedConfig &scIn, C18Outcome &out) {
             for (auto &b : shared[op.share])
                 if (b->hash == dataHash(op)) b->restore(op);
         }
+    constSharedSeal();
     heapReset(cs.knobs);
     std::vector<OpHeapCtx> ctxs((size_t)T);
     // (task, op index, global step at op begin): lets a trap taken in the
@@ -377,6 +412,7 @@ void C18Exec::concurrent(const SchedConfig &scIn, C18Outcome &out) {
             size_t spanIdx = spans.size() - 1;
             ExecOpts eo;
             eo.shared = s.shared;
+            eo.sealInputs = true;
             // errno holds whatever earlier calls on this thread left in it; alone the call starts with 0
             eo.entryErrno = entryErrnoFor(mix2(cs.caseSeed, op.hash()) + (uint64_t)t);
             OpHeapCtx &c = ctxs[(size_t)t];
@@ -487,6 +523,15 @@ void C18Exec::concurrent(const SchedConfig &scIn, C18Outcome &out) {
                 out.violations.push_back(mkViolation(
                     "I6-ambient-state", op, t, (int)i,
                     "the call left the thread's floating-point rounding mode changed", ""));
+            if (s.got.constChanged > 0)
+                out.violations.push_back(mkViolation(
+                    "I2-const-input-write", op, t, (int)i,
+                    "the call stored to one of its const inputs and changed it (" +
+                        std::to_string(s.got.constChanged) + " value-changing store(s), first at byte offset " +
+                        std::to_string(s.got.constFirstOffset) + " of the input area, global step " +
+                        std::to_string(s.got.constFirstStep) + " of the concurrent phase)" +
+                        (s.got.constFirstShared ? "; the object is shared with other tasks" : ""),
+                    s.got.constFirstShared ? "shared-const-input" : "const-input"));
             for (auto &hv : s.heapV)
                 out.violations.push_back(mkViolation(
                     "I2-" + hv.kind, op, t, (int)i,
@@ -758,6 +803,14 @@ JP runC18(uint64_t runSeed, int64_t runIdx, const TierCfg &cfg) {
     line->set("solo_steps", out.soloSteps);
     line->set("signature", hex64(out.st.signature));
     line->set("shared_groups", out.sharedGroups);
+    {
+        // cumulative per worker process; the driver takes the maximum per worker and sums over workers
+        static int64_t lastSealed = 0, lastTrapped = 0;
+        line->set("const_sealed_calls", constSealedCalls() - lastSealed);
+        line->set("const_trapped_stores", constTrappedStores() - lastTrapped);
+        lastSealed = constSealedCalls();
+        lastTrapped = constTrappedStores();
+    }
     line->set("faulted_execs", out.faultedOps);
     JP f = JVal::obj();
     for (int k = 1; k < F_KINDS; k++)
